@@ -6,6 +6,9 @@
 #include "vlib/meter.h"
 #include "vlib/ops.h"
 #include "ref/mutate.h"
+#include <nop/rpc/interface.h>
+#include <nop/rpc/simple_method_receiver.h>
+#include <nop/rpc/simple_method_sender.h>
 
 using namespace vf;
 namespace vf { std::vector<TypeOps>& registry() { static std::vector<TypeOps> r; return r; } }
@@ -586,6 +589,84 @@ static void c10_case(const TypeCtx& c, uint64_t ci) {
   clear_current();
 }
 
+// ---- C10 for the RPC layer (anchors rpc/simple_method_sender.h, simple_method_receiver.h, interface.h dispatch)
+struct C10If : nop::Interface<C10If> {
+  NOP_INTERFACE("verif.c10.Iface");
+  NOP_METHOD(Sum, int(int, int));
+  NOP_METHOD(Describe, std::string(const std::string&, std::vector<int>));
+  NOP_METHOD(Log, void(const std::string&));
+  NOP_INTERFACE_API(Sum, Describe, Log);
+};
+struct C10Service { int calls = 0; std::string OnDescribe(const std::string& s, std::vector<int> v) { calls++; return s + ":" + std::to_string(v.size()) + std::string(40, 'd'); } };
+static int g_c10_sum_calls = 0;
+static void c10_rpc() {
+  const std::string T = "rpc";
+  using Ser = nop::Serializer<LogWriter*>; using Des = nop::Deserializer<LogReader*>;
+  // a valid reply for each method so that a sender which wrongly goes on to read a reply would "succeed"
+  auto encode = [](auto&& v) { LogWriter w; Ser s{&w}; auto st = s.Write(v); (void)st; return w.data; };
+  Bytes reply_int = encode(30), reply_str = encode(std::string("reply"));
+  struct Method { const char* name; std::function<nop::ErrorStatus(nop::SimpleMethodSender<Ser, Des>*, bool*)> invoke; const Bytes* reply; };
+  std::vector<Method> methods = {
+    {"Sum", [](auto* snd, bool* ok) { auto st = C10If::Sum::Invoke(snd, 10, 2000000); *ok = (bool)st; return st ? nop::ErrorStatus::None : st.error(); }, &reply_int},
+    {"Describe", [](auto* snd, bool* ok) { auto st = C10If::Describe::Invoke(snd, std::string("a long enough string to need a block write"), std::vector<int>{1, 2, 3, 400}); *ok = (bool)st; return st ? nop::ErrorStatus::None : st.error(); }, &reply_str},
+    {"Log", [](auto* snd, bool* ok) { auto st = C10If::Log::Invoke(snd, std::string("hello")); *ok = (bool)st; return st ? nop::ErrorStatus::None : st.error(); }, &reply_int},
+  };
+  for (auto& m : methods) {
+    uint64_t nw, nr;
+    { LogWriter w; LogReader r(m.reply->data(), m.reply->size()); Ser s{&w}; Des d{&r}; auto snd = nop::MakeSimpleMethodSender(&s, &d); bool ok; m.invoke(&snd, &ok); nw = w.ncalls; nr = r.ncalls; }
+    for (uint64_t k = 0; k < nw; k++) for (nop::ErrorStatus E : kFaults) {
+      if (E == nop::ErrorStatus::ReadLimitReached) continue;
+      std::string stage = fmt("send/%s/w%" PRIu64 "/e%d", m.name, k, (int)E); if (!args().only_stage.empty() && args().only_stage != stage) continue;
+      set_current("%s", case_desc(T, 0, stage).c_str());
+      LogWriter w; w.fault.fail_at = (int64_t)k; w.fault.error = E; LogReader r(m.reply->data(), m.reply->size()); Ser s{&w}; Des d{&r}; auto snd = nop::MakeSimpleMethodSender(&s, &d);
+      bool ok = false; nop::ErrorStatus got = m.invoke(&snd, &ok);
+      rep().note_enumerated(true); rep().count("c10_rpc_sender_write_faults");
+      std::string cd = case_desc(T, 0, stage, J().s("method", m.name).u("call", k).s("error", errname(E)).str());
+      if (ok) rep().violation(fmt("C10:rpc:success-after-fault:send:%s", m.name), fmt("Invoke(%s) reported success although writer call %" PRIu64 " of the request failed with '%s'", m.name, k, errname(E)), cd);
+      else if (got != E) rep().violation(fmt("C10:rpc:error-changed:send:%s", m.name), fmt("writer call %" PRIu64 " failed with '%s' but Invoke(%s) returned '%s'", k, errname(E), m.name, errname(got)), cd);
+      if (w.calls_after_failure) rep().violation(fmt("C10:rpc:calls-after-fault:send:%s", m.name), fmt("%" PRIu64 " further writer calls after the failed one while sending %s", w.calls_after_failure, m.name), cd);
+      if (r.ncalls) rep().violation(fmt("C10:rpc:reply-read-after-failed-send:%s", m.name), fmt("the sender went on to read the reply (%" PRIu64 " reader calls) after the request write failed", r.ncalls), cd);
+    }
+    for (uint64_t k = 0; k < nr; k++) for (nop::ErrorStatus E : kFaults) {
+      if (E == nop::ErrorStatus::WriteLimitReached) continue;
+      std::string stage = fmt("send/%s/r%" PRIu64 "/e%d", m.name, k, (int)E); if (!args().only_stage.empty() && args().only_stage != stage) continue;
+      set_current("%s", case_desc(T, 0, stage).c_str());
+      LogWriter w; LogReader r(m.reply->data(), m.reply->size()); r.fault.fail_at = (int64_t)k; r.fault.error = E; Ser s{&w}; Des d{&r}; auto snd = nop::MakeSimpleMethodSender(&s, &d);
+      bool ok = false; nop::ErrorStatus got = m.invoke(&snd, &ok); rep().note_enumerated(true); rep().count("c10_rpc_sender_read_faults");
+      std::string cd = case_desc(T, 0, stage, J().s("method", m.name).u("call", k).s("error", errname(E)).str());
+      if (ok || got != E) rep().violation(fmt("C10:rpc:reply-read-fault:%s", m.name), fmt("reader call %" PRIu64 " of the reply failed with '%s', Invoke(%s) returned '%s'", k, errname(E), m.name, ok ? "success" : errname(got)), cd);
+      if (r.calls_after_failure) rep().violation(fmt("C10:rpc:calls-after-fault:reply:%s", m.name), "further reader calls after the failed one while reading the reply", cd);
+    }
+  }
+  // ---- receiver / dispatcher: lambda binding (Sum) and member-function binding (Describe)
+  auto bindings = nop::BindInterface<C10Service*>(C10If::Sum::Bind([](C10Service*, int a, int b) { g_c10_sum_calls++; return a + b; }), C10If::Describe::Bind(&C10Service::OnDescribe));
+  struct Req { const char* name; Bytes bytes; };
+  std::vector<Req> reqs;
+  { LogWriter w; Ser s{&w}; s.Write(C10If::Sum::Selector); s.Write(std::make_tuple(10, 2000000)); reqs.push_back({"Sum", w.data}); }
+  { LogWriter w; Ser s{&w}; s.Write(C10If::Describe::Selector); s.Write(std::make_tuple(std::string("a long enough string to need a block write"), std::vector<int>{1, 2, 3, 400})); reqs.push_back({"Describe", w.data}); }
+  for (auto& q : reqs) {
+    uint64_t nr, nw;
+    { LogWriter w; LogReader r(q.bytes.data(), q.bytes.size()); Ser s{&w}; Des d{&r}; auto rcv = nop::MakeSimpleMethodReceiver(&s, &d); C10Service svc; auto st = bindings(&rcv, &svc); (void)st; nr = r.ncalls; nw = w.ncalls; }
+    for (int side = 0; side < 2; side++) for (uint64_t k = 0; k < (side ? nw : nr); k++) for (nop::ErrorStatus E : kFaults) {
+      if ((side == 0 && E == nop::ErrorStatus::WriteLimitReached) || (side == 1 && E == nop::ErrorStatus::ReadLimitReached)) continue;
+      std::string stage = fmt("dispatch/%s/%c%" PRIu64 "/e%d", q.name, side ? 'w' : 'r', k, (int)E); if (!args().only_stage.empty() && args().only_stage != stage) continue;
+      set_current("%s", case_desc(T, 0, stage).c_str());
+      LogWriter w; LogReader r(q.bytes.data(), q.bytes.size()); if (side) { w.fault.fail_at = (int64_t)k; w.fault.error = E; } else { r.fault.fail_at = (int64_t)k; r.fault.error = E; }
+      Ser s{&w}; Des d{&r}; auto rcv = nop::MakeSimpleMethodReceiver(&s, &d); C10Service svc; int sum0 = g_c10_sum_calls;
+      auto st = bindings(&rcv, &svc);
+      rep().note_enumerated(true); rep().count(side ? "c10_rpc_dispatch_write_faults" : "c10_rpc_dispatch_read_faults");
+      std::string cd = case_desc(T, 0, stage, J().s("method", q.name).u("call", k).s("error", errname(E)).str());
+      if (st) rep().violation(fmt("C10:rpc:success-after-fault:dispatch-%s:%s", side ? "reply" : "request", q.name), fmt("the dispatcher reported success although %s call %" PRIu64 " failed with '%s' (%s)", side ? "writer" : "reader", k, errname(E), q.name), cd);
+      else if (st.error() != E) rep().violation(fmt("C10:rpc:error-changed:dispatch-%s:%s", side ? "reply" : "request", q.name), fmt("%s call %" PRIu64 " failed with '%s', the dispatcher returned '%s'", side ? "writer" : "reader", k, errname(E), errname(st.error())), cd);
+      if (w.calls_after_failure || r.calls_after_failure) rep().violation(fmt("C10:rpc:calls-after-fault:dispatch:%s", q.name), "further reader/writer calls after the failed one", cd);
+      if (side == 0 && (svc.calls || g_c10_sum_calls != sum0)) rep().violation(fmt("C10:rpc:handler-ran-after-failed-read:%s", q.name), "a handler ran although reading the request failed", cd);
+      if (side == 0 && w.ncalls) rep().violation(fmt("C10:rpc:reply-after-failed-read:%s", q.name), "reply bytes were written although reading the request failed", cd);
+    }
+  }
+  if (rep().want_sample("rpc", 1)) rep().sample("rpc", J().s("interface", "verif.c10.Iface").s("methods", "Sum, Describe, Log").str(), 1);
+  clear_current();
+}
+
 // ================================================================= C11: prior contents
 static void c11_case(const TypeCtx& c, uint64_t ci) {
   Viol viol{c, (int64_t)ci, "prior"};
@@ -662,5 +743,6 @@ int vf::engine_main() {
   }
   rep().counters["types_exercised_by_this_worker_max"] = types_run;
   if (P == "C06" && a.worker == 0 && !a.replay()) c06_huge();
+  if (P == "C10" && ((a.worker == 0 && !a.replay()) || a.only_type == "rpc")) c10_rpc();
   return 0;
 }
